@@ -1,6 +1,84 @@
 import CkbVerif.Driver.Util
+import CkbVerif.Model.Window
+
+/-! Line-protocol driver for C20 (protocol: see harness/hcore/src/c20.rs). -/
 namespace CkbVerif.Driver.C20
-def main (_args : List String) : IO UInt32 := do
-  IO.eprintln "C20: model driver not implemented"
-  return 2
+open CkbVerif.Driver CkbVerif.Window
+
+structure St where
+  w : Win := defaultWin
+  node : Node := { chain := [[]], table := [], view := {} }
+
+def canon (l : List Nat) : List Nat :=
+  (l.mergeSort (fun a b => decide (a ≤ b))).eraseDups
+
+def showIds (l : List Nat) : String := showNatList (canon l)
+
+def showTable (t : Table) : String :=
+  let es := t.mergeSort (fun a b => decide (a.1 ≤ b.1))
+  if es.isEmpty then "-" else ";".intercalate (es.map fun e => s!"{e.1}:{showIds e.2}")
+
+def viewLine (removed : Option Ids) (n : Node) : String :=
+  let r := match removed with
+    | some r => s!"removed={showIds r} "
+    | none => ""
+  s!"{r}set={showIds n.view.set} gap={showIds n.view.gap} table={showTable n.table}"
+
+def step (s : St) (ts : List String) : St × String :=
+  match ts with
+  | ["cfg", "default"] =>
+    ({ w := defaultWin }, s!"ok {defaultWin.close} {defaultWin.far}")
+  | ["cfg", c, f] =>
+    match parseNat? c, parseNat? f with
+    | some c, some f => ({ w := ⟨c, f⟩ }, s!"ok {c} {f}")
+    | _, _ => (s, "bad-op")
+  | ["insert", n, ids] =>
+    match parseNat? n, parseNatList? ids with
+    | some n, some ids =>
+      let was := (s.node.table.get? n).isSome
+      ({ s with node := { s.node with table := s.node.table.insert n ids } }, if was then "replaced" else "new")
+    | _, _ => (s, "bad-op")
+  | ["remove", n] =>
+    match parseNat? n with
+    | some n =>
+      let r := match s.node.table.get? n with
+        | some ids => s!"some {showIds ids}"
+        | none => "none"
+      ({ s with node := { s.node with table := s.node.table.remove n } }, r)
+    | none => (s, "bad-op")
+  | ["finalize", n] =>
+    match parseNat? n with
+    | some n =>
+      let r := finalize s.w s.node.table s.node.view n
+      let node := { s.node with table := r.1, view := r.2.2 }
+      ({ s with node := node }, viewLine (some r.2.1) node)
+    | none => (s, "bad-op")
+  | ["view-reset"] => ({ s with node := { s.node with view := {} } }, "ok")
+  | "boot" :: blocks =>
+    -- start-up on a stored chain: the genesis block's ids first, then blocks 1, 2, …
+    match blocks.mapM parseNatList? with
+    | some (g :: bs) =>
+      let node := init s.w (g :: bs)
+      ({ s with node := node }, viewLine none node)
+    | _ => (s, "bad-op")
+  | "switch" :: common :: branch =>
+    match parseNat? common, branch.mapM parseNatList? with
+    | some c, some bs =>
+      if c < s.node.chain.length then
+        let r := switch s.w s.node c bs
+        ({ s with node := r.1 }, viewLine (some r.2) r.1)
+      else (s, "bad-op")
+    | _, _ => (s, "bad-op")
+  | ["restart"] =>
+    let node := init s.w s.node.chain
+    ({ s with node := node }, viewLine none node)
+  | ["verify", ids] =>
+    match parseNatList? ids with
+    | some ids => (s, if commitOk s.w s.node.chain s.node.chain.length ids then "ok" else "invalid")
+    | none => (s, "bad-op")
+  | _ => (s, "bad-op")
+
+def main (_args : List String) : IO UInt32 :=
+  runLines ({} : St) step
+
 end CkbVerif.Driver.C20
